@@ -61,5 +61,9 @@ func (c *smCheck) run(t *testing.T) {
 				}, cl...)
 			},
 		})
+		// every history ends with Close: a transaction leaked by an earlier call makes it block
+		if !s.M.Closed {
+			do(cs.Op{Kind: "close"})
+		}
 	})
 }
